@@ -78,8 +78,7 @@ CLAIMED = {
         "in N0 and from_M0 returns the requested mass; machine-checked refutation of the documented 'bins need not align with breaks'. Float instance compared with "
         "PowerLawIMF on generated IMFs (1-6 segments, slopes incl. -1/-2, all ext spellings, exact-break masses, aligned/straddling/outside bins); quad is the oracle.",
    design="8/C11", technique="Coq proofs by induction over segments + Coquelicot integrals + float correspondence + quad oracle",
-   note="Trusted: Coq kernel; Reals/Coquelicot axioms (evidence); FloatFun; scipy.integrate.quad inside Mtot is not modelled (closed-form second moment instead, tie at 1e-3; the "
-        "measured quad inaccuracy is a listed finding); harness."),
+   note="Trusted: Coq kernel; Reals/Coquelicot axioms (evidence); FloatFun; harness (Mtot is the closed-form sum since fix 7d88d64; it used to be a single quad call)."),
 
  "C13": dict(
    text="Proof: for every break list, every list of positive counts and both spacings the edges exist, are strictly increasing, contain every break and have "
